@@ -1258,6 +1258,8 @@ export class TupleRuntype extends BaseRuntype {
       type: "array",
       prefixItems,
       items,
+      // prefixItems alone says nothing about arrays that are too short
+      ...(prefixItems.length > 0 ? { minItems: prefixItems.length } : {}),
     } as any);
   }
   validate(ctx: ValidateContext, input: unknown): boolean {
